@@ -7,27 +7,26 @@ OPEN = {'(': ')', '[': ']', '{': '}'}
 CLOSE = set(OPEN.values())
 
 def split_items(flat):
-    """split a flat token list into top-level items: each ends with its top-level `{...}` group
-    (impl blocks) -- returns list of (header_tokens, body_tokens_including_braces)"""
+    """split a flat token list into top-level items.  An item ends at a top-level `}` that is followed
+    by the end of the input, `impl` or `#` (a brace group inside a header, `Foo<{ 1 + 2 }>`, does not
+    end it); returns list of (header_tokens, body_tokens_including_braces) with body = the last
+    top-level brace group of the item"""
     items = []
     depth = 0
     start = 0
-    body_start = None
-    i = 0
+    last_open = None
     n = len(flat)
-    while i < n:
-        t = flat[i]
+    for i, t in enumerate(flat):
         if t in OPEN:
             if depth == 0 and t == '{':
-                body_start = i
+                last_open = i
             depth += 1
         elif t in CLOSE:
             depth -= 1
-            if depth == 0 and body_start is not None:
-                items.append((flat[start:body_start], flat[body_start:i + 1]))
+            if depth == 0 and t == '}' and (i + 1 == n or flat[i + 1] in ('impl', '#')):
+                items.append((flat[start:last_open], flat[last_open:i + 1]))
                 start = i + 1
-                body_start = None
-        i += 1
+                last_open = None
     if start < n:
         items.append((flat[start:], []))
     return items
